@@ -97,3 +97,12 @@ Theorem C03_writer_protocol_initial : forall w high r ns o,
     model_trace w (emit_start r1) ns addrs = Ok (tr, r_pc (o_final o)) /\
     protocol_ok high tr (r_pc (o_final o)) (o_blocks o).
 Proof. exact assemble_writer_protocol_builtin. Qed.
+
+(** [*=] to a RAM address (no file offset to move to) leaves the output offset where it was — the
+    last conjunct of the run-time oracle ([ram_org_ok]) — for every node list on the built-in buses. *)
+From A816 Require Import Proofs.RamOrg.
+Theorem C03_ram_org : forall w high r ns o,
+  get_bus w r = Ok (builtin high) -> assemble_nodes w r ns = Ok o ->
+  exists r1 addrs tr, resolve_labels w r ns = Ok (r1, addrs) /\
+    model_trace w (emit_start r1) ns addrs = Ok (tr, r_pc (o_final o)) /\ ram_org_ok high tr = true.
+Proof. exact assemble_ram_org_ok. Qed.
